@@ -72,7 +72,7 @@ pub fn alphabet(tier: Tier) -> Vec<Option<ATerm>> {
     ];
     if tier == Tier::Quick {
         // keep every class but fewer members (a complete sub-alphabet)
-        let keep = [0usize, 1, 3, 5, 6, 8, 10, 11, 14, 16, 18, 19, 20, 22, 25, 26, 27, 28, 29, 30, 31, 34, 36, 38, 40, 41, 42, 44, 45, 46, 49];
+        let keep = [0usize, 1, 3, 5, 6, 8, 10, 11, 14, 16, 18, 19, 20, 22, 24, 25, 26, 27, 28, 29, 30, 31, 34, 36, 38, 40, 41, 42, 44, 45, 46, 49];
         v = keep.iter().map(|i| v[*i].clone()).collect();
     }
     v
